@@ -101,6 +101,52 @@ Theorem C14_reachable_inv : forall secure h s ri,
 Proof. exact reachable_inv. Qed.
 Print Assumptions C14_reachable_inv.
 
+(* ---- second layer: the parser's decision about the head of a request as a function of the bytes ---- *)
+
+(* every byte string without backslash, byte >= 128 and square bracket gets a definite verdict (classify is a total
+   Gallina function: there is nothing that could crash; the point is that [Unmodelled] is confined to those bytes) *)
+Theorem C14_classify_total : forall bs, (forall c, In c bs -> dirty c = false) ->
+  classify bs = NeedMore \/ (exists e, classify bs = Bad e /\ e <> InvalidChunk) \/ classify bs = HeadersOk.
+Proof. exact classify_total. Qed.
+Print Assumptions C14_classify_total.
+
+(* composition: a head classified Bad, on a connection whose parser reports what classify says (that agreement is what the
+   correspondence check compares on every run), is answered with exactly one 400 that says close, the close, no dispatch,
+   and nothing is kept *)
+Theorem C14_bad_is_rejected : forall secure c a bs e v hd,
+  classify bs = Bad e -> exec_agrees a (classify bs) ->
+  buf c = true \/ a_ssl a = Ret false -> a_errreq a = Ret (v, hd) ->
+  effs_of (read_conn secure c a)
+  = [EReject 400; EWrite 400 (resp_version (match e with BadFirstLine => (1, 1) | _ => v end)) true
+                         (match e with BadFirstLine => false | _ => hd end); EClose]
+  /\ ~ In EDispatch (effs_of (read_conn secure c a))
+  /\ conn_of (read_conn secure c a) = empty_conn.
+Proof. exact bad_is_rejected. Qed.
+Print Assumptions C14_bad_is_rejected.
+
+Theorem C14_needmore_waits : forall secure c a bs,
+  classify bs = NeedMore -> exec_agrees a (classify bs) ->
+  buf c = true \/ a_ssl a = Ret false ->
+  effs_of (read_conn secure c a) = [] /\ buf (conn_of (read_conn secure c a)) = true.
+Proof. exact needmore_waits. Qed.
+Print Assumptions C14_needmore_waits.
+
+(* ---- bursts: reads and disconnects queued before the loop runs (two-phase reading of the FIFO interleaving) ---- *)
+Theorem C14_burst_outcome : forall secure h, Forall (fun x => shape (snd x)) (snd (burst secure h)).
+Proof. exact burst_outcome. Qed.
+Print Assumptions C14_burst_outcome.
+
+Theorem C14_burst_never_crash : forall secure h s effs,
+  In (s, effs) (snd (burst secure h)) -> ~ In ECrash effs /\ ~ In EOutOfFuel effs /\ (n_writes effs <= 1)%nat.
+Proof. exact burst_never_crash. Qed.
+Print Assumptions C14_burst_never_crash.
+
+Theorem C14_burst_released : forall secure h1 h2 s,
+  (forall o, In o h2 -> op_sock o <> s) ->
+  fst (burst secure (h1 ++ Disc s :: h2)) s = empty_conn.
+Proof. exact burst_released. Qed.
+Print Assumptions C14_burst_released.
+
 (* ---- non-vacuity: concrete answers reaching each outcome ---- *)
 Definition A0 : answers :=
   {| a_ssl := Ret false; a_exec := Raise; a_errreq := Raise; a_req := Raise; a_clen := Raise;
@@ -108,8 +154,8 @@ Definition A0 : answers :=
 Definition with_exec (a : answers) (x : res pflags) : answers :=
   {| a_ssl := a_ssl a; a_exec := x; a_errreq := a_errreq a; a_req := a_req a; a_clen := a_clen a;
      a_path := a_path a; a_excreq := a_excreq a; a_app := a_app a |}.
-Definition R11 : reqinfo := {| rver := (1, 1); is_head := false; has_host := true; te_chunked := false; keepalive := true |}.
-Definition R20 : reqinfo := {| rver := (2, 0); is_head := true; has_host := true; te_chunked := false; keepalive := true |}.
+Definition R11 : reqinfo := {| rver := (1, 1); is_head := false; has_host := true; host_ctl := false; te_chunked := false; keepalive := true |}.
+Definition R20 : reqinfo := {| rver := (2, 0); is_head := true; has_host := true; host_ctl := false; te_chunked := false; keepalive := true |}.
 Definition Agood (ri : reqinfo) (n : Z) : answers :=
   {| a_ssl := Ret false; a_exec := Ret {| hc := true; perrno := None; mc := true |}; a_errreq := Raise;
      a_req := Ret ri; a_clen := Ret n; a_path := Ret PCanon; a_excreq := Ret tt; a_app := Ret 200 |}.
@@ -161,3 +207,31 @@ Example C14_ex_history :
       Read 1 (with_exec A0 (Ret {| hc := false; perrno := None; mc := false |})); Disc 0]) in
   (t 0%nat, t 1%nat) = (empty_conn, {| buf := true; cli := None |}).
 Proof. vm_compute. reflexivity. Qed.
+
+(* classify on concrete heads *)
+Example C14_ex_classify_ok : classify [71; 69; 84; 32; 47; 32; 72; 84; 84; 80; 47; 49; 46; 49; 13; 10; 72; 111; 115; 116; 58; 32; 97; 13; 10; 13; 10] = HeadersOk.
+Proof. vm_compute. reflexivity. Qed.
+Example C14_ex_classify_nocolon : classify [72; 69; 65; 68; 32; 47; 32; 72; 84; 84; 80; 47; 49; 46; 49; 13; 10; 72; 111; 115; 116; 32; 97; 13; 10; 13; 10] = Bad InvalidHeader.
+Proof. vm_compute. reflexivity. Qed.
+Example C14_ex_classify_nul_name : classify [71; 69; 84; 32; 47; 32; 72; 84; 84; 80; 47; 49; 46; 49; 13; 10; 65; 0; 58; 32; 99; 13; 10; 13; 10] = Bad InvalidHeader.
+Proof. vm_compute. reflexivity. Qed.
+Example C14_ex_classify_garbage : classify [71; 65; 82; 66; 65; 71; 69; 13; 10] = Bad BadFirstLine.
+Proof. vm_compute. reflexivity. Qed.
+Example C14_ex_classify_fragment : classify [71; 69; 84; 32; 47; 35; 120; 32; 72; 84; 84; 80; 47; 49; 46; 49; 13; 10] = Bad BadFirstLine.
+Proof. vm_compute. reflexivity. Qed.
+Example C14_ex_classify_prefix : classify [71; 69; 84; 32; 47; 32; 72; 84; 84; 80; 47; 49; 46; 49; 13; 10; 72; 111; 115; 116; 58; 32; 97; 13; 10] = NeedMore.
+Proof. vm_compute. reflexivity. Qed.
+Example C14_ex_classify_regex : classify [71; 64; 84; 32; 47; 32; 72; 84; 84; 80; 47; 49; 50; 51; 13; 10; 13; 10] = HeadersOk.
+Proof. vm_compute. reflexivity. Qed.
+Example C14_ex_classify_escape : classify [71; 69; 84; 32; 47; 92; 120; 32; 72; 84; 84; 80; 47; 49; 46; 49; 13; 10; 13; 10] = Unmodelled.
+Proof. vm_compute. reflexivity. Qed.
+
+(* a burst is NOT the same as processing the reads one after the other: two requests on one connection, both reads handled
+   before the first response is written -- the second is served with the pair of the first (here: not as a HEAD) *)
+Definition Rhead : reqinfo := {| rver := (1, 1); is_head := true; has_host := true; host_ctl := false; te_chunked := false; keepalive := true |}.
+Example C14_ex_burst_differs :
+  map snd (snd (burst false [Read 0 (Agood R11 0); Read 0 (Agood Rhead 0)]))
+    = [[EDispatch; EWrite 200 (1, 1) false false]; [EDispatch; EWrite 200 (1, 1) false false]]
+  /\ snd (run false empty_tables [Read 0 (Agood R11 0); Read 0 (Agood Rhead 0)])
+    = [[EDispatch; EWrite 200 (1, 1) false false]; [EDispatch; EWrite 200 (1, 1) false true]].
+Proof. vm_compute. split; reflexivity. Qed.
